@@ -49,7 +49,8 @@ CLAIMS['C08'] = {
              'configured returns Argument with the whole memory unchanged (check precedes every access); zone_*_below_offset; '
              'new_rejects_small/misaligned/overlap for MetaData::valid with overlap_iff (the source predicate is interval '
              'intersection for non-empty ranges). Differential: malformed call stream + construction over carved buffers.'
-             ' Theorem check_matches_source: the ensure! conditions of LLFree::check are regenerated from core/src/llfree.rs on every run by the translator (Gen/Check.lean; it also checks that a failing ensure! returns Error::Argument) and their conjunction is exactly ArgsValid, the predicate the model check is proved to decide.'),
+             ' Theorem check_matches_source: the ensure! conditions of LLFree::check are regenerated from core/src/llfree.rs on every run by the translator (Gen/Check.lean; it also checks that a failing ensure! returns Error::Argument) and their conjunction is exactly ArgsValid, the predicate the model check is proved to decide.'
+             ' Theorem metadata_sizes_match_source: Trees::metadata_size, Lower::metadata_size (through Metadata::new) and Locals::metadata_size are regenerated from the source on every run by the translator (Gen/Meta.lean: div_ceil, next_multiple_of, size_of_slice as written) and equal the buffer sizes of the model for the listed size_of/align_of values of the five element types (trusted, cross-checked by the unit differential meta).'),
     'note': TB,
     'technique': 'Lean 4 theorems by symbolic execution of check/get/put in the sequential semantics + differential (malformed stream, buffer layouts)',
 }
@@ -303,7 +304,8 @@ CLAIMS['C18'] = {
              'inside the byte buffer of exactly the size metadata_size requests (incl. empty buffers for empty configurations).' + PART +
              'undefined behaviour of the Rust abstract machine (narrow-atomic punning of bitfield rows, non_atomic table fills, aligned_buf, pointer '
              'arithmetic of overlap, data races) cannot be expressed in the model; it is explored at run time only: all metadata buffers of all '
-             'correspondence runs are exactly sized and end in front of a guard page. No sanitizer/Miri run is part of this technique.'),
+             'correspondence runs are exactly sized and end in front of a guard page. No sanitizer/Miri run is part of this technique.'
+             ' Theorem metadata_sizes_match_source: Trees::metadata_size, Lower::metadata_size (through Metadata::new) and Locals::metadata_size are regenerated from the source on every run by the translator (Gen/Meta.lean: div_ceil, next_multiple_of, size_of_slice as written) and equal the buffer sizes of the model for the listed size_of/align_of values of the five element types (trusted, cross-checked by the unit differential meta).'),
     'note': TB + ' Depends on the C23 theorem (bv_decide axioms) through C09.',
     'technique': 'Lean 4 theorems (in-bounds accesses for all histories + buffer layout arithmetic) + guard-paged exactly-sized metadata buffers in every correspondence run',
 }
